@@ -90,7 +90,9 @@ Step(s, i) ==
       [] t.pc = "m.participants" ->       \* get_participants("/", <c1's personal room>)
             (IF s.member.c1 THEN Goto(s, i, "m.gen_ack") ELSE Done(s, i, "ok"))
       [] t.pc = "m.gen_ack" ->            \* _generate_ack_id: the callback is registered ...
-            [s EXCEPT !.cb = @ + 1, !.th[i].pc = "eio.send_ev"]
+            [s EXCEPT !.cb = @ + 1, !.th[i].pc = "task.start"]
+      [] t.pc = "task.start" ->           \* the send runs in a task of its own: it starts when the loop gets to it
+            Goto(s, i, "eio.send_ev")
       [] t.pc = "eio.send_ev" ->          \* ... and the EVENT goes out (a closed transport drops it)
             Done(s, i, "ok")
       [] t.pc = "m.get_namespaces" ->       \* snapshot of the manager's namespaces, in its dict order
